@@ -763,7 +763,10 @@ def _relevant_nodes(nodes, goal):
     return rel
 
 
-def close_sums(pst, prove, goal=None):
+CONGR_FAIL_BUDGET_S = 25.0
+
+
+def close_sums(pst, prove, goal=None, budget_s=None):
     """Congruence rule for reduction nodes: pointwise equal bodies (same
     dimension) => equal values.  Returns number of equalities added.
     goal: when given, only nodes that occur in it (directly or nested in the
@@ -772,6 +775,9 @@ def close_sums(pst, prove, goal=None):
     added = 0
     nodes = pst.sums
     rel = _relevant_nodes(nodes, goal) if goal is not None else None
+    import time as _time
+
+    t_end = _time.time() + budget_s if budget_s else None  # budget: giving up early is only incompleteness
     for _round in range(4):
         new = 0
         for a_i in range(len(nodes)):
@@ -780,6 +786,8 @@ def close_sums(pst, prove, goal=None):
             for b_i in range(a_i + 1, len(nodes)):
                 if rel is not None and b_i not in rel:
                     continue
+                if t_end is not None and _time.time() > t_end:
+                    return added + new
                 a, b = nodes[a_i], nodes[b_i]
                 if a.kind != b.kind or a.nparams != b.nparams or not dim_eq(a.dim, b.dim) or a.sort != b.sort:
                     continue
@@ -808,9 +816,15 @@ def close_sums(pst, prove, goal=None):
                     syms = _body_symbols(a) | _body_symbols(b)
                     if not any(names & syms for names in clog[prev[1]:]):
                         continue
+                # once a lot of time went into attempts that failed, only integrands over the
+                # same symbols are still compared (giving up is incompleteness, never unsoundness)
+                if pst.ghost.get("congr_fail_time", 0.0) > CONGR_FAIL_BUDGET_S and _body_symbols(a) != _body_symbols(b):
+                    continue
+                _t0 = _time.time()
                 v, *_ = prove(pst.pc, pst.qfacts, goal, extra_pool=sk, timeout_ms=3000, quick=True)
                 if v != "unsat":
                     failed_pairs[(a_i, b_i)] = (user_facts, len(clog))
+                    pst.ghost["congr_fail_time"] = pst.ghost.get("congr_fail_time", 0.0) + (_time.time() - _t0)
                 if v == "unsat":
                     a.equal_to.add(b_i)
                     clog.append(_node_names(a) | _node_names(b))
@@ -918,7 +932,8 @@ def index(t: Tensor, idx):
             if isinstance(lo, (Sym,)) or isinstance(hi, Sym) or isinstance(d, Sym):
                 # bounds that provably need no clamping keep their syntactic form
                 # (x[:k] has length k, x[a:a+m] has length m), as in at_set
-                lo_in = isinstance(lo, (int, Sym)) and not isinstance(lo, bool) and _entails_in_range(lo, d)
+                lo_in = (isinstance(lo, int) and not isinstance(lo, bool) and lo == 0) or (
+                    isinstance(lo, (int, Sym)) and not isinstance(lo, bool) and _entails_in_range(lo, d))
                 hi_in = isinstance(hi, (int, Sym)) and not isinstance(hi, bool) and hi is not d and _entails_in_range(hi, d)
                 lo_c = (lo if lo_in else C.smax(0, C.smin(lo, d))) if not (isinstance(lo, int) and lo == 0) else 0
                 hi_c = (hi if hi_in else C.smax(0, C.smin(hi, d))) if not (hi is d) else d
@@ -1069,6 +1084,23 @@ def _divmod_affine(o, d):
     return C.binop("//", o, d), C.binop("%", o, d)
 
 
+def exact_quotient(total, a):
+    """total / a when that is decided syntactically: concrete sizes with a | total, or `total`
+    is literally the product a * b of two dimension terms (then b); None otherwise"""
+    if isinstance(total, int) and isinstance(a, int):
+        return total // a if a > 0 and total % a == 0 else None
+    if dim_eq(norm_dim(total), a):
+        return 1
+    tz = z3.simplify(dim_z(total))
+    ch = tz.children() if z3.is_mul(tz) else []
+    if len(ch) == 2:
+        az = z3.simplify(dim_z(a))
+        other = [c for c in ch if not z3.eq(z3.simplify(c), az)]
+        if len(other) == 1:
+            return norm_dim(Sym(other[0]))
+    return None
+
+
 def reshape(t, shape):
     t = as_tensor(t)
     if len(shape) == 1 and isinstance(shape[0], (tuple, list)):
@@ -1162,6 +1194,14 @@ def reshape(t, shape):
         a, b = tgt[0], tgt[1]
         if isinstance(a, int) and a == -1:
             raise Unsupported("reshape split with -1")
+        if isinstance(b, int) and b == -1:
+            # x.reshape(A, -1): the second extent is len(x) / A (NumPy: must divide exactly)
+            b = exact_quotient(t.shape[0], a)
+            if b is None:
+                if isinstance(t.shape[0], int) and isinstance(a, int):
+                    raise ShapeError(f"cannot reshape array of shape {t.shape} into {shape}")
+                raise Unsupported(f"reshape({a}, -1) of an axis of length {t.shape[0]}: cannot determine the quotient")
+            tgt[1] = b
         prod = norm_dim(C.binop("*", a, b))
         # a single trailing -1 stands for the (single) remaining extent
         if len(tgt) == 3 and t.ndim == 2 and isinstance(tgt[2], int) and tgt[2] == -1 and dim_eq(prod, t.shape[0]):
